@@ -103,6 +103,8 @@ type synth struct {
 	streams []*synthStream
 	// payload hash -> payload id
 	ids map[string]int
+	// the same for the PES of unsupported elementary streams (never a Client callback)
+	xids map[string]int
 	// id -> is the first frame of a segment (IDR) for fMP4 video
 	mu       sync.Mutex
 	requests []string       // request log (path + range)
@@ -182,15 +184,85 @@ type switchW struct{ w io.Writer }
 
 func (s *switchW) Write(p []byte) (int, error) { return s.w.Write(p) }
 
+// the payload of one PES of an unsupported elementary stream, as the callback of mediacommon's
+// Reader for that codec would hand it over (so that the reference demultiplexer can identify it)
+func unsupUnits(salt uint64, codec string, id int) [][]byte {
+	body := payloadBytes(salt, id+3000000, 40+id%11)
+	switch codec {
+	case "mp3":
+		// MPEG-1 layer III, 32 kbit/s, 44100 Hz, mono: 144*32000/44100 = 104 bytes per frame
+		f := append([]byte{0xFF, 0xFB, 0x10, 0xC0}, payloadBytes(salt, id+3000000, 100)...)
+		return [][]byte{f}
+	case "ac3":
+		// syncword, crc1, fscod 0 (48 kHz) / frmsizecod 0 (64 words = 128 bytes), bsid 8, acmod 2 (2/0)
+		f := append([]byte{0x0B, 0x77, 0x11, 0x22, 0x00, 0x40, 0x40}, payloadBytes(salt, id+3000000, 121)...)
+		return [][]byte{f}
+	case "opus":
+		return [][]byte{body}
+	case "h265":
+		return [][]byte{append([]byte{0x02, 0x01}, body...)} // TRAIL_R
+	case "mpeg4video":
+		return [][]byte{append([]byte{0, 0, 1, 0xB6}, body...)}
+	default: // mpeg1video
+		return [][]byte{append([]byte{0, 0, 1, 0x00}, body...)}
+	}
+}
+
+func unsupCodec(codec string) mpegts.Codec {
+	switch codec {
+	case "mp3":
+		return &mpegts.CodecMPEG1Audio{}
+	case "ac3":
+		return &mpegts.CodecAC3{SampleRate: 48000, ChannelCount: 2}
+	case "opus":
+		return &mpegts.CodecOpus{ChannelCount: 2}
+	case "h265":
+		return &mpegts.CodecH265{}
+	case "mpeg4video":
+		return &mpegts.CodecMPEG4Video{}
+	default:
+		return &mpegts.CodecMPEG1Video{}
+	}
+}
+
+func writeUnsup(w *mpegts.Writer, tr *mpegts.Track, codec string, pts int64, units [][]byte) error {
+	switch codec {
+	case "mp3":
+		return w.WriteMPEG1Audio(tr, pts, units)
+	case "ac3":
+		return w.WriteAC3(tr, pts, units[0])
+	case "opus":
+		return w.WriteOpus(tr, pts, units)
+	case "h265":
+		return w.WriteH265(tr, pts, pts, units)
+	case "mpeg4video":
+		return w.WriteMPEG4Video(tr, pts, units[0])
+	default:
+		return w.WriteMPEG1Video(tr, pts, units[0])
+	}
+}
+
 func (s *synth) buildMPEGTSStream(si int, st *StreamDesc) (segB [][]byte, err error) {
-	var tracks []*mpegts.Track
-	for _, t := range st.Tracks {
-		if t.isVideo() {
-			tracks = append(tracks, &mpegts.Track{Codec: &mpegts.CodecH264{}})
-		} else {
-			tracks = append(tracks, &mpegts.Track{Codec: &mpegts.CodecMPEG4Audio{
-				Config: mpeg4audio.Config{Type: 2, SampleRate: 44100, ChannelCount: 2}}})
+	var tracks []*mpegts.Track // PMT order
+	sup := map[int]*mpegts.Track{}
+	uns := map[int]*mpegts.Track{}
+	for _, e := range st.pmt() {
+		var tr *mpegts.Track
+		switch {
+		case e.Sup >= 0 && st.Tracks[e.Sup].isVideo():
+			tr = &mpegts.Track{Codec: &mpegts.CodecH264{}}
+		case e.Sup >= 0:
+			tr = &mpegts.Track{Codec: &mpegts.CodecMPEG4Audio{
+				Config: mpeg4audio.Config{Type: 2, SampleRate: 44100, ChannelCount: 2}}}
+		default:
+			tr = &mpegts.Track{Codec: unsupCodec(e.Codec)}
 		}
+		if e.Sup >= 0 {
+			sup[e.Sup] = tr
+		} else {
+			uns[e.X] = tr
+		}
+		tracks = append(tracks, tr)
 	}
 	sw := &switchW{}
 	w := &mpegts.Writer{W: sw, Tracks: tracks}
@@ -200,8 +272,27 @@ func (s *synth) buildMPEGTSStream(si int, st *StreamDesc) (segB [][]byte, err er
 	for _, sg := range st.Segs {
 		var buf bytes.Buffer
 		sw.w = &buf
-		for _, p := range sg.PES {
-			tr := tracks[p.Track]
+		writeX := func(pos int, rest bool) error {
+			for _, x := range sg.XPES {
+				if x.X < 0 || x.X >= len(st.Unsup) {
+					return fmt.Errorf("xpes: no unsupported stream %d", x.X)
+				}
+				if x.After == pos || (rest && x.After > pos) {
+					codec := st.Unsup[x.X].Codec
+					units := unsupUnits(s.salt, codec, x.ID)
+					s.xids[hashUnits(units)] = x.ID
+					if err := writeUnsup(w, uns[x.X], codec, ((x.PTS%two33)+two33)%two33, units); err != nil {
+						return err
+					}
+				}
+			}
+			return nil
+		}
+		for i, p := range sg.PES {
+			if err = writeX(i, false); err != nil {
+				return nil, err
+			}
+			tr := sup[p.Track]
 			if st.Tracks[p.Track].isVideo() {
 				au := videoAU(s.salt, p.ID, p.IDR)
 				s.ids[hashUnits(au)] = p.ID
@@ -215,13 +306,16 @@ func (s *synth) buildMPEGTSStream(si int, st *StreamDesc) (segB [][]byte, err er
 				return nil, err
 			}
 		}
+		if err = writeX(len(sg.PES), true); err != nil {
+			return nil, err
+		}
 		segB = append(segB, append([]byte{}, buf.Bytes()...))
 	}
 	return segB, nil
 }
 
 func newSynth(d *Desc, salt uint64) (*synth, error) {
-	s := &synth{d: d, salt: salt, files: map[string]*resource{}, ids: map[string]int{}, plCount: map[string]int{}}
+	s := &synth{d: d, salt: salt, files: map[string]*resource{}, ids: map[string]int{}, xids: map[string]int{}, plCount: map[string]int{}}
 	ext := ".mp4"
 	if d.Kind == "mpegts" {
 		ext = ".ts"
